@@ -663,3 +663,25 @@ func valueOf(in ssa.Instruction) ssa.Value {
 	v, _ := in.(ssa.Value)
 	return v
 }
+
+// rDrainKeepsHealthVerdict: a drain changes a target's state without telling the balancer (updateState notifies nobody), so
+// it must put back exactly the state it found: restoring any other value is a health transition the rotation never hears
+// of - a target that is healthy but never served, or unhealthy and still in rotation (shared with C03's drain protocol).
+func rDrainKeepsHealthVerdict(c *Ctx, rule string) {
+	c.floor(rule, 1)
+	fn := c.method("Target", "Drain")
+	upd := c.method("Target", "updateState")
+	draining := c.enumVal(c.server, "TargetStateDraining")
+	var mark *ssa.Call
+	for _, cs := range callsTo(fn, upd) {
+		if call, ok := cs.instr.(*ssa.Call); ok {
+			if k, ok := constInt(call.Call.Args[1]); ok && k == draining {
+				mark = call
+			}
+		}
+	}
+	if !c.ob(rule, "Drain/marks-draining", fn.Pos(), mark != nil, true, "Drain must call updateState(TargetStateDraining)") {
+		return
+	}
+	drainRestores(c, rule, fn, upd, mark, draining)
+}
